@@ -464,7 +464,7 @@ theorem fieldValue_cost (w : Weights) (base : VExpr) (o : FieldOps) :
 
 theorem var_cost (w : Weights) (n : Name) : (VExpr.ofCore (.var n)).cost w = 0 := rfl
 
-theorem wildBase_cost (w : Weights) (v : VExpr) (f : FieldName) : (wildBase v f).cost w = v.cost w := by
+theorem wildBase_cost (w : Weights) (v : VExpr) (rsp : Sp) (f : FieldName) : (wildBase v rsp f).cost w = v.cost w := by
   cases f <;> simp [wildBase, Core.cost, VExpr.cost]
 
 theorem Codes.passCost_append (w : Weights) : ∀ (a b : Codes), (a.append b).passCost w = a.passCost w + b.passCost w
@@ -524,8 +524,8 @@ theorem expandWildFields_passCost (w : Weights) : ∀ (fs : Items) (v : VExpr),
       cases hr : o.rootFieldName? with
       | none => simp [hr, Code.passCost]
       | some f =>
-        have hb : Core.cost w (wildBase v f) = Core.cost w v.core := by
-          have := wildBase_cost w v f; simpa only [VExpr.cost] using this
+        have hb : Core.cost w (wildBase v o.rootFieldSp f) = Core.cost w v.core := by
+          have := wildBase_cost w v o.rootFieldSp f; simpa only [VExpr.cost] using this
         simp only [hr, Option.isSome_some, if_true]
         cases ht : o.tailOps? with
         | none =>
@@ -536,7 +536,7 @@ theorem expandWildFields_passCost (w : Weights) : ∀ (fs : Items) (v : VExpr),
             simp [ht, expandPat_passCost w p, FieldOps.tailCost, VExpr.cost, hb, Nat.mul_add]
             omega
           | some tl' =>
-            have hf := foldl_applyOp_cost w tl'.ops ⟨[], wildBase v f⟩
+            have hf := foldl_applyOp_cost w tl'.ops ⟨[], wildBase v o.rootFieldSp f⟩
             simp only [VExpr.cost] at hf
             simp [ht, expandPat_passCost w p, FieldOps.tailCost, applyOps, VExpr.cost,
               VExpr.ofCore, hf, hb, Nat.mul_add, Nat.add_mul]
